@@ -139,7 +139,7 @@ def main():
         traceback.print_exc()
         return 3
     if a.no_native:
-        native = dict(cases=0, failures=[], tests=[], crashed=None, skipped=True)
+        native = dict(cases=0, failures=[], tests=[], crashed=None, not_run=True)
     else:
         native = run_native(prop, tier, seed, only=a.only)
     return report(prop, tier, seed, mod, results, native, time.time() - t0)
@@ -165,6 +165,8 @@ def report(prop, tier, seed, mod, results, native, wall):
     covers = [o for o in obls if o['kind'] == 'cover']
     canaries = [o for o in obls if o['kind'] == 'canary']
     undecided_fns = [u for r in results for u in r['undecided']]
+    for sk in native.get('skipped') or []:
+        undecided_fns.append(dict(fn='native:' + sk.get('test', '?'), reason=sk.get('reason', 'skipped')))
     bounded = [o for o in obls if o['kind'] == 'bounded']
     failed = [o for o in proof + bounded if o['status'] == 'failed']
     undecided_obl = [o for o in proof if o['status'] == 'undecided']
@@ -245,7 +247,7 @@ def report(prop, tier, seed, mod, results, native, wall):
     kf_refuted = [o for o in failed_proof if o.get('known_finding')]
     proof_counted = [o for o in proof if not o.get('known_finding')]
     level = 'proof' if (all_proved and not crashed and len(discharged) == len(proof_counted)) else 'other'
-    if native.get('skipped'):
+    if native.get('not_run'):
         level = 'other'       # diagnostic run without the bounded harness
     samples = [dict(name=o['name'], verdict=o['status'], backend=o['backend'], ms=o['ms']) for o in proof[:6]]
     solver_ms = sum(o['ms'] for o in obls)
